@@ -1307,6 +1307,17 @@ def check_wallet(ctx, case):
             except Exception as e:
                 ctx.refusal('watch.create:%s' % type(e).__name__)
                 w2 = None
+        # a freshly reopened Wallet object hands out its public master before anything else has touched its keys
+        # (WalletKey objects loaded from the database carry no key object yet)
+        try:
+            _close_wallet(w)
+            w = wl.Wallet('c16', db_uri=db)
+            pm2 = w.public_master()
+            for p in (pm2 if isinstance(pm2, list) else [pm2] if pm2 is not None else []):
+                pubobjs.append(('reopened.public_master', p))
+            ctx.klass('wallet.reopened_public_master')
+        except Exception as e:
+            ctx.refusal('reopened.public_master:%s' % type(e).__name__)
         # ---- oracle ----
         secrets = Secrets()
         try:
